@@ -12,18 +12,22 @@ import Std.Data.HashMap
                                    → `ok none <n states>` | `ok <tid>,<tid>,…` (one entry per observable step)
 
   ver    = `w` (module.wait as written) | `f` (fixed)
-  graph  = `<roots>/<loads>`: roots = module ids of the BUILD files, one goroutine each; loads = `;`-separated load lists
-           of modules 0,1,2,… (`-` = none), e.g. `0,1/2;2;3;-`
+  graph  = `<roots>/<loads>[/<broken>]`: roots = module ids of the BUILD files, one goroutine each; loads = `;`-separated
+           load lists of modules 0,1,2,… (`-` = none); broken = modules whose environment cannot be set up,
+           e.g. `0,1/2;2;3;-`; with broken module 2: roots `0,1`, loads `2;2;-`, then `/2`
   events = `t.call.d.new|found` `t.set.x.d|nil` `t.exec.d` `t.get.c.r|nil` `t.wlocked.d` `t.cyclic.d` `t.block.d`
            `t.done.m.ok|fail` `t.woke.d` `t.end`   (comma separated, `-` for none)
-  final  = `class=<ok|cyclic> execs=<m:n,…> ok=<m,…> failed=<m,…>` | `DEADLOCK` | `incomplete` -/
+  final  = `class=<ok|cyclic|other|mixed> execs=<m:n,…> ok=<m,…> failed=<m,…>` | `DEADLOCK` | `incomplete`
+           (class: which errors the finished modules carry — cyclic-dependency, other, or both) -/
 open Dawn.Loader Driver
 
 structure Graph where
   roots : List Mod
   loads : List (List Mod)
+  broken : List Mod
 
-def Graph.project (g : Graph) : Project := { loads := fun m => g.loads.getD m [], roots := g.roots }
+def Graph.project (g : Graph) : Project :=
+  { loads := fun m => g.loads.getD m [], roots := g.roots, broken := fun m => g.broken.contains m }
 
 def parseNats (s : String) : Option (List Nat) :=
   if s == "-" || s == "" then some [] else (s.splitOn ",").mapM String.toNat?
@@ -33,7 +37,12 @@ def parseGraph (s : String) : Option Graph :=
   | [r, l] => do
     let roots ← parseNats r
     let loads ← (l.splitOn ";").mapM parseNats
-    some ⟨roots, loads⟩
+    some ⟨roots, loads, []⟩
+  | [r, l, b] => do
+    let roots ← parseNats r
+    let loads ← (l.splitOn ";").mapM parseNats
+    let broken ← parseNats b
+    some ⟨roots, loads, broken⟩
   | _ => none
 
 def parseVer (s : String) : Option Version :=
@@ -43,11 +52,13 @@ def commaJoin (xs : List String) : String := if xs.isEmpty then "-" else ",".int
 
 def finalStr (g : Graph) (s : State) : String :=
   let ms := List.range g.loads.length
-  let anyFailed := ms.any fun m => s.loaded m && s.failed m
+  let anyCyc := ms.any fun m => s.loaded m && s.result m == .cyc
+  let anyErr := ms.any fun m => s.loaded m && s.result m == .err
+  let cls := if anyCyc && anyErr then "mixed" else if anyCyc then "cyclic" else if anyErr then "other" else "ok"
   let ex := ms.map fun m => s!"{m}:{s.execs m}"
-  let ok := (ms.filter fun m => s.loaded m && !s.failed m).map toString
-  let fl := (ms.filter fun m => s.loaded m && s.failed m).map toString
-  s!"class={if anyFailed then "cyclic" else "ok"} execs={commaJoin ex} ok={commaJoin ok} failed={commaJoin fl}"
+  let ok := (ms.filter fun m => s.loaded m && !failed s m).map toString
+  let fl := (ms.filter fun m => s.loaded m && failed s m).map toString
+  s!"class={cls} execs={commaJoin ex} ok={commaJoin ok} failed={commaJoin fl}"
 
 /-- steps that have no observable event of their own -/
 def silent (v : Version) (s : State) (t : Tid) : Bool :=
@@ -165,7 +176,7 @@ def runTrace (v : Version) (g : Graph) (evs : List String) : String :=
 def stateKey (g : Graph) (s : State) : String :=
   let ms := List.range g.loads.length
   let ts := List.range g.roots.length
-  let m := ms.map fun m => s!"{s.registry m}{s.loading m}{s.loaded m}{s.failed m}{s.mlock m}{s.execs m}"
+  let m := ms.map fun m => s!"{s.registry m}{s.loading m}{s.loaded m}{repr (s.result m)}{s.mlock m}{s.execs m}"
   let t := ts.map fun t => s!"{repr (s.pc t)}{(s.stack t).map fun f => (f.mod, f.todo.length)}"
   s!"{m}{t}"
 
